@@ -120,7 +120,8 @@ class ParserEngine(ParserCore, CanParse):
         if ri.should_trace:
             self.callstack.append(ri)
         self.next_token(ri)
-        key = self.memokey()
+        # NOTE: the key names the invoked rule, which is on the call stack only if it traces
+        key = MemoKey(self.pos, ri)
 
         pos = self.pos
         try:
